@@ -991,10 +991,9 @@ class StubsStringGenerator:
             for example in docstring.examples:
                 example_text = f"{indentations} * @example\n{indentations} * pipeline example {{\n"
                 for example_part in example.replace("*/", "* /").split("\n"):
-                    if example_part.startswith(">>>"):
-                        example_text += f"{indentations} *     {example_part.replace('>>>', '//')}\n"
-                    elif example_part.startswith("..."):
-                        example_text += f"{indentations} *     {example_part.replace('...', '//')}\n"
+                    # Only the prompt becomes a comment mark, the code behind it may contain ">>>" or "..." itself
+                    if example_part.startswith((">>>", "...")):
+                        example_text += f"{indentations} *     //{example_part[3:]}\n"
                 example_text += f"{indentations} * }}\n"
                 example_docstrings.append(example_text)
 
